@@ -10,6 +10,8 @@ P(n) == [k |-> "prim", n |-> n]
 TOf(n) == CASE n = "u32" -> P("u32") [] n = "String" -> P("String") [] n = "unit" -> P("unit") [] n = "DateTime" -> P("DateTime")
             [] n = "Ovr" -> P("Ovr")        \* a String member carrying a per-language type override (typeshare(swift(type = "Int"), ...)):
                                             \* the override names the TYPE; whether the member is optional is still decided by Option / default
+            [] n = "Sas" -> P("Sas")        \* a member of an opaque Rust type generated through typeshare(serialized_as = ".."), the attribute naming the
+                                            \* SAME shape over String (Option<Opaque> as "Option<String>"): Option is stated once, on either side
             [] n = "VecU8" -> [k |-> "vec", e |-> P("u8")]
             [] n = "MapStringU32" -> [k |-> "map", key |-> P("String"), val |-> P("u32")]
             [] n = "User" -> [k |-> "user", n |-> "User", args |-> <<>>]
